@@ -368,7 +368,11 @@ func (f *fidRef) renameChildTo(oldName string, target *fidRef, newName string) {
 	origPathNode := f.pathNode.removeWithName(oldName, func(ref *fidRef) {
 		// N.B. DecRef can take f.pathNode's parent's childMu. This is
 		// allowed because renameMu is held for write via safelyGlobal.
-		ref.parent.DecRef() // Drop original reference.
+		// Re-parent first and drop the reference on the original parent
+		// last: DecRef may Close the original parent's File, and a panic
+		// in that backend call must not leave ref unregistered and
+		// pointing at a parent whose reference it no longer holds.
+		origParent := ref.parent
 		ref.parent = target // Change parent.
 		ref.parent.IncRef() // Acquire new one.
 		if f.pathNode == target.pathNode {
@@ -377,6 +381,7 @@ func (f *fidRef) renameChildTo(oldName string, target *fidRef, newName string) {
 			target.pathNode.addChild(ref, newName)
 		}
 		ref.file.Renamed(target.file, newName)
+		origParent.DecRef() // Drop original reference.
 	})
 
 	if origPathNode != nil {
